@@ -5,6 +5,9 @@ import subprocess
 
 TECH = "Coq proof over a hand-written Gallina model + model/implementation correspondence evaluated in coqc"
 CLAIMS = {
+ "C06": dict(level="proof", design="3/C06",
+   text="Proof, for all libraries and all query paths, that the model of find_global obeys the documented rules (explicit entry wins; explicit segment beats `*`, `*` is the fallback; struct segments continue in the struct; any absorbs; on wildcard/struct/any-free libraries the result is exactly: key -> its field, proper prefix of keys -> implicit read-only table, else absent), is total when every named struct exists (and reaches the panic otherwise), does not depend on key order, that a known root always resolves, and that writes follow the writability table with every assignment target judged independently. Tied to /repo by evaluating the real find_global/global_has_fields and the incorrect_standard_library_use diagnostics of generated programs against model and rules inside coqc.",
+   note="Trusted: the trie built by extract_into_tree is modelled extensionally (construction covered by correspondence only); name-path extraction and scope resolution are oracles here (real ScopeManager); W1 repaired by a fix: commit."),
  "C15": dict(level="proof", design="3/C15",
    text="Machine-checked proof (Coq 8.16) that the model of StandardLibrary::extend, of base-chain resolution and of the CLI `+` fold satisfies 'derived overrides base, removed removes, derived lua_versions win' for all libraries and chains of any length; the model is tied to /repo by a correspondence run: the real extend()/from_name() and the model are evaluated on the same generated and shipped libraries inside coqc, and the specification is evaluated on the implementation's own output.",
    note="Trusted: Coq kernel, harness printers, wf_lib (no duplicate keys) checked per dumped library; YAML text layer and on-disk base lookup not modelled."),
